@@ -327,3 +327,44 @@ func Verif_C17_failed_dial_leaves_nothing_behind() {
 	s.cancelFunc()
 	verifapi.Quiesce()
 }
+
+// Verif_C17_listener_closed_with_unaccepted_connections: a stream listener (QUIC stubbed) has a
+// connection that completed its handshake but that the application has not taken with Accept yet; the
+// listener is closed. Nobody owns that connection, so the listener's close ends it: afterwards the node
+// runs exactly the goroutines it ran before the listener was opened, and the service name is free.
+func Verif_C17_listener_closed_with_unaccepted_connections() {
+	n := verifNetceptor("A")
+	verifapi.Quiesce()
+	st := &verifScriptStream{in: []byte{0, 9}, out: &[]byte{}, closed: new(int)}
+	qctx, qcancel := context.WithCancel(context.Background())
+	qc := &verifAcceptConn{verifQConn: verifQConn{ctx: qctx, cancel: qcancel, remote: Addr{node: "B", service: "x"}}, st: st}
+	handed := false
+	verifapi.Redirect("(*github.com/quic-go/quic-go.Transport).Listen", func(t *quic.Transport, tlsConf *tls.Config, conf *quic.Config) (*quic.Listener, error) {
+		return new(quic.Listener), nil
+	})
+	verifapi.Redirect("(*github.com/quic-go/quic-go.Listener).Accept", func(l *quic.Listener, ctx context.Context) (quic.Connection, error) {
+		if !handed {
+			handed = true
+			return qc, nil
+		}
+		<-ctx.Done()
+		return nil, ctx.Err()
+	})
+	verifapi.Redirect("(*github.com/quic-go/quic-go.Listener).Close", func(l *quic.Listener) error { return nil })
+	verifapi.Redirect("github.com/ansible/receptor/pkg/netceptor.generateServerTLSConfig", func() *tls.Config { return &tls.Config{} })
+	before := verifapi.LiveGoroutines()
+	names := len(n.s.listenerRegistry)
+	ctx, cancel := context.WithCancel(context.Background())
+	li, err := n.s.listen(ctx, "svc", nil, false, nil)
+	verifapi.Assert("listening", err == nil && li != nil)
+	verifapi.Quiesce()
+	verifapi.Assert("a-connection-is-waiting-to-be-accepted", handed)
+	_ = li.Close()
+	cancel()
+	verifapi.Quiesce()
+	verifapi.Cover("listener-closed")
+	verifapi.Assert("service-name-released", len(n.s.listenerRegistry) == names)
+	verifapi.Assert("no-goroutine-left-behind", verifapi.LiveGoroutines() == before)
+	n.s.cancelFunc()
+	verifapi.Quiesce()
+}
